@@ -100,16 +100,16 @@ func (in *Interp) syncPoint(g *G) (isSync bool, ready bool) {
 		return true, readyFns[name](in, g, args)
 	case *ssa.Send:
 		ch := in.get(fr, ins.Chan).R.(*ChanV)
-		return true, ch.closed || len(ch.buf) < ch.cap
+		return true, in.sendReady(g, ch)
 	case *ssa.Select:
 		if !ins.Blocking {
 			return true, true
 		}
-		return true, len(in.selectReady(fr, ins)) > 0
+		return true, len(in.selectReady(g, fr, ins)) > 0
 	case *ssa.UnOp:
 		if ins.Op == token.ARROW {
 			ch := in.get(fr, ins.X).R.(*ChanV)
-			return true, ch.closed || len(ch.buf) > 0
+			return true, in.recvReady(g, ch)
 		}
 	}
 	return false, true
@@ -190,7 +190,136 @@ func (in *Interp) reportDeadlock() {
 	in.addViolation("DEADLOCK", "all goroutines blocked", m, false, strings.Join(where, ","))
 }
 
-func (in *Interp) selectReady(fr *Frame, ins *ssa.Select) []int {
+// ---- unbuffered channels: rendezvous -----------------------------------------------------------------
+//
+// A send on a channel of capacity 0 can proceed only when another goroutine stands at a receive on the same
+// channel (a plain receive or a blocking select with such a case), and vice versa; whichever of the two is
+// scheduled performs the hand-over and completes the partner's instruction as well.
+
+type chanPoint struct {
+	g    *G
+	fr   *Frame
+	send *ssa.Send
+	recv *ssa.UnOp
+	sel  *ssa.Select
+	k    int
+}
+
+func (in *Interp) chanPartner(self *G, ch *ChanV, wantSend bool) *chanPoint {
+	for _, g := range in.gs {
+		if g == self || g.done || g.top == nil || g.top.Fn == nil {
+			continue
+		}
+		fr := g.top
+		if fr.blk == nil || fr.pc >= len(fr.blk.Instrs) {
+			continue
+		}
+		switch ins := fr.blk.Instrs[fr.pc].(type) {
+		case *ssa.Send:
+			if wantSend && in.get(fr, ins.Chan).R == interface{}(ch) {
+				return &chanPoint{g: g, fr: fr, send: ins}
+			}
+		case *ssa.UnOp:
+			if !wantSend && ins.Op == token.ARROW && in.get(fr, ins.X).R == interface{}(ch) {
+				return &chanPoint{g: g, fr: fr, recv: ins}
+			}
+		case *ssa.Select:
+			if !ins.Blocking {
+				continue
+			}
+			for k, st := range ins.States {
+				if (st.Dir == types.SendOnly) == wantSend && in.get(fr, st.Chan).R == interface{}(ch) {
+					return &chanPoint{g: g, fr: fr, sel: ins, k: k}
+				}
+			}
+		}
+	}
+	return nil
+}
+
+func (in *Interp) sendReady(g *G, ch *ChanV) bool {
+	if ch.closed || len(ch.buf) < ch.cap {
+		return true
+	}
+	return ch.cap == 0 && in.chanPartner(g, ch, false) != nil
+}
+
+func (in *Interp) recvReady(g *G, ch *ChanV) bool {
+	if ch.closed || len(ch.buf) > 0 {
+		return true
+	}
+	return ch.cap == 0 && in.chanPartner(g, ch, true) != nil
+}
+
+func selectResult(ins *ssa.Select, k int) []Value {
+	tt := ins.Type().(*types.Tuple)
+	res := make([]Value, tt.Len())
+	for i := range res {
+		res[i] = zero(tt.At(i).Type())
+	}
+	res[0] = mkInt(uint64(k), 64)
+	return res
+}
+
+func selectRecvSlot(ins *ssa.Select, k int) int {
+	ri := 2
+	for j := 0; j < k; j++ {
+		if ins.States[j].Dir != types.SendOnly {
+			ri++
+		}
+	}
+	return ri
+}
+
+// handOver gives v (sent by the current goroutine) to the receiver standing at p and completes its receive.
+func (in *Interp) handOver(ch *ChanV, p *chanPoint, v Value) {
+	in.raceRelease(ch)
+	saved := in.cur
+	in.cur = p.g
+	in.raceAcquire(ch)
+	in.raceRelease(ch) // the receive also happens before the completion of the send
+	in.cur = saved
+	in.raceAcquire(ch)
+	if p.recv != nil {
+		if p.recv.CommaOk {
+			in.set(p.fr, p.recv, Value{K: KTuple, R: []Value{v, mkBool(true)}})
+		} else {
+			in.set(p.fr, p.recv, v)
+		}
+	} else {
+		res := selectResult(p.sel, p.k)
+		res[1] = mkBool(true)
+		res[selectRecvSlot(p.sel, p.k)] = v
+		in.set(p.fr, p.sel, Value{K: KTuple, R: res})
+	}
+	p.fr.pc++
+	p.g.block = ""
+}
+
+// takeFrom takes the value of the sender standing at p (for the current goroutine) and completes its send.
+func (in *Interp) takeFrom(ch *ChanV, p *chanPoint) Value {
+	var v Value
+	if p.send != nil {
+		v = copyVal(in.get(p.fr, p.send.X))
+	} else {
+		v = copyVal(in.get(p.fr, p.sel.States[p.k].Send))
+		in.set(p.fr, p.sel, Value{K: KTuple, R: selectResult(p.sel, p.k)})
+	}
+	saved := in.cur
+	in.cur = p.g
+	in.raceRelease(ch)
+	in.cur = saved
+	in.raceAcquire(ch)
+	in.raceRelease(ch)
+	in.cur = p.g
+	in.raceAcquire(ch)
+	in.cur = saved
+	p.fr.pc++
+	p.g.block = ""
+	return v
+}
+
+func (in *Interp) selectReady(g *G, fr *Frame, ins *ssa.Select) []int {
 	var ready []int
 	for i, st := range ins.States {
 		cv := in.get(fr, st.Chan)
@@ -199,10 +328,10 @@ func (in *Interp) selectReady(fr *Frame, ins *ssa.Select) []int {
 		}
 		ch := cv.R.(*ChanV)
 		if st.Dir == types.SendOnly {
-			if ch.closed || len(ch.buf) < ch.cap {
+			if in.sendReady(g, ch) {
 				ready = append(ready, i)
 			}
-		} else if ch.closed || len(ch.buf) > 0 {
+		} else if in.recvReady(g, ch) {
 			ready = append(ready, i)
 		}
 	}
@@ -210,7 +339,7 @@ func (in *Interp) selectReady(fr *Frame, ins *ssa.Select) []int {
 }
 
 func (in *Interp) selectOp(g *G, fr *Frame, ins *ssa.Select) {
-	ready := in.selectReady(fr, ins)
+	ready := in.selectReady(g, fr, ins)
 	tt := ins.Type().(*types.Tuple)
 	res := make([]Value, tt.Len())
 	for i := range res {
@@ -235,6 +364,11 @@ func (in *Interp) selectOp(g *G, fr *Frame, ins *ssa.Select) {
 			in.goPanic(g, "send on closed channel")
 			return
 		}
+		if p := in.chanPartner(g, ch, false); ch.cap == 0 && p != nil {
+			in.set(fr, ins, Value{K: KTuple, R: res})
+			in.handOver(ch, p, copyVal(in.get(fr, st.Send)))
+			return
+		}
 		ch.buf = append(ch.buf, copyVal(in.get(fr, st.Send)))
 	} else {
 		// position of this receive among the receive states
@@ -247,6 +381,9 @@ func (in *Interp) selectOp(g *G, fr *Frame, ins *ssa.Select) {
 		if len(ch.buf) > 0 {
 			res[ri] = ch.buf[0]
 			ch.buf = ch.buf[1:]
+			res[1] = mkBool(true)
+		} else if p := in.chanPartner(g, ch, true); !ch.closed && ch.cap == 0 && p != nil {
+			res[ri] = in.takeFrom(ch, p)
 			res[1] = mkBool(true)
 		} else {
 			res[1] = mkBool(false)
